@@ -37,13 +37,15 @@ func init() {
 		},
 		modes: func(tier string, seed int64) []modeSpec {
 			a, b := 1500, 360
+			div := 16
 			if tier == "thorough" {
-				a, b = 60000, 8000
+				a, b = 60000, 4000
+				div = 64
 			}
 			return []modeSpec{
 				{name: "raw", n: a, perChild: a / 16, timeout: 20 * time.Minute, env: []string{"VERIF_HOOK=chaos", "VERIF_HOOK_PROB=30", "VERIF_HOOK_MAXUS=30"}},
-				{name: "engine", n: b, perChild: b / 16, race: true, timeout: 30 * time.Minute, env: []string{"VERIF_HOOK=chaos", "VERIF_HOOK_PROB=5", "VERIF_HOOK_MAXUS=10"}},
-				{name: "engine-plain", n: b, perChild: b / 16, timeout: 30 * time.Minute},
+				{name: "engine", n: b, perChild: b / div, race: true, timeout: 30 * time.Minute, env: []string{"VERIF_HOOK=chaos", "VERIF_HOOK_PROB=5", "VERIF_HOOK_MAXUS=10"}},
+				{name: "engine-plain", n: b, perChild: b / div, timeout: 30 * time.Minute},
 			}
 		},
 		run: func(c *caseCtx) caseResult {
